@@ -466,7 +466,7 @@ pub fn image_calls(ctx: &Ctx) {
     }
     match guarded(|| read_back(bytes.clone())) {
         Ok(Ok(rb)) => {
-            let mut e = m::Scene { guid: "g".into(), format_name: rb.scene.format_name.clone(), library_version: rb.scene.library_version.clone(), ..Default::default() };
+            let mut e = m::Scene { guid: "g".into(), format_name: rb.scene.format_name.clone(), library_version: rb.scene.library_version.clone(), version: (1, 0), ..Default::default() };
             e.images.push(exp);
             let d = m::diff_scene(&e, &rb.scene, false, false);
             if !d.is_empty() {
